@@ -6,6 +6,7 @@ import Rtp.Proofs.WireCanonical
 import Rtp.Proofs.WireViewPred
 import Rtp.Proofs.WireAgree
 import Rtp.Proofs.WireAppbits
+import Rtp.Proofs.WireDecode
 import Rtp.Pred.C03
 namespace Rtp.Props.C03
 open Rtp Rtp.Model Rtp.Spec.Wire Rtp.Proofs.Wire
@@ -205,6 +206,14 @@ theorem c03_mut_pred (buf : Bytes) (qs : List UInt8)
         exact this
       · cases hd
     · cases hd
+
+/-- the oracle of `c03.mut` is complete: EVERY well-formed image is recognised as one (with a
+    description of the same packet, in the same region), so `c03.mut` applies sentence (1) to every
+    mutated input that is still a well-formed image -/
+theorem c03_oracle_complete (w : Wire) (hw : w.WF = true) :
+    ∃ w', Wire.describe w.encode = some w' ∧ w'.toPacket = w.toPacket ∧ w'.ignored = w.ignored ∧
+      w'.appbits = w.appbits :=
+  describe_encode w hw
 
 /-- the oracle finds the description of a mutated-looking image: non-vacuity of `c03_mut_pred` -/
 example : (Wire.describe exWire.encode).isSome = true := by decide
